@@ -935,3 +935,99 @@ Definition extracted_object (name : str) (q : jq) : jq :=
   | Some (JObj ((_ :: _) as kvs)) => assoc_update (assoc_remove name q) kvs
   | Some _ => assoc_set name (JStr []) (assoc_remove name q)
   end.
+
+(* =====================================================================================
+   Part F.  The validator behind the guard of negative_schema (negative/__init__.py get_validator :36-40,
+   filter_values :77-85: a mutated value is kept only when not validator.is_valid(value)) on numeric schemas
+   with the Draft 4 BOOLEAN form of exclusiveMinimum / exclusiveMaximum (OpenAPI 2.0 / 3.0).
+   python-jsonschema validates by keyword dispatch: for every key of the schema dict, in order, the function the
+   draft registers for that key is run; keys without a function are ignored.  Draft 4 registers minimum / maximum
+   = minimum_draft3_draft4 / maximum_draft3_draft4 (_legacy_keywords.py :138-167: they read the sibling
+   schema.get(exclusiveMinimum, False) by truthiness) and nothing for the exclusive keys; Draft 6 and later
+   register the plain minimum / maximum and numeric exclusiveMinimum / exclusiveMaximum (_keywords.py :127-164),
+   which compare the instance with the argument whatever it is - Python True and False compare as 1 and 0.
+   Values are integers (json has no floats).
+   ===================================================================================== *)
+Inductive draft := Draft4 | Draft7.
+
+(* truthiness of schema.get(name, False) *)
+Definition py_truthy (o : option json) : bool :=
+  match o with
+  | None | Some JNull => false
+  | Some (JBool b) => b
+  | Some (JInt z) => negb (z =? 0)%Z
+  | Some (JStr s) => negb (is_nil s)
+  | Some (JArr l) => negb (is_nil l)
+  | Some (JObj l) => negb (is_nil l)
+  end.
+(* the argument of a numeric keyword as Python compares it: bool is a subclass of int *)
+Definition py_bound (a : json) : option Z :=
+  match a with JInt z => Some z | JBool b => Some (if b then 1 else 0)%Z | _ => None end.
+
+Definition type_name_ok (a v : json) : bool :=
+  match a with
+  | JStr name => match jtype_of_name name with Some t => has_type t v | None => true end
+  | _ => true
+  end.
+(* the keyword type: one name or a list of names *)
+Definition type_arg_ok (a v : json) : bool :=
+  match a with
+  | JArr names => existsb (fun n => type_name_ok n v) names
+  | _ => type_name_ok a v
+  end.
+(* instance < bound fails (strict: instance <= bound fails); not a number: ignored *)
+Definition low_ok (strict : bool) (a v : json) : bool :=
+  match v, py_bound a with
+  | JInt x, Some m => if strict then (m <? x)%Z else (m <=? x)%Z
+  | _, _ => true
+  end.
+Definition high_ok (strict : bool) (a v : json) : bool :=
+  match v, py_bound a with
+  | JInt x, Some m => if strict then (x <? m)%Z else (x <=? m)%Z
+  | _, _ => true
+  end.
+
+(* the function registered for key k in draft d, applied to argument a, instance v, inside the schema dict *)
+Definition guard_keyword (d : draft) (schema : jdict) (k : str) (a v : json) : bool :=
+  if str_eqb k k_type then type_arg_ok a v
+  else if str_eqb k k_minimum then
+    low_ok (match d with Draft4 => py_truthy (assoc_get k_exclusiveMinimum schema) | Draft7 => false end) a v
+  else if str_eqb k k_maximum then
+    high_ok (match d with Draft4 => py_truthy (assoc_get k_exclusiveMaximum schema) | Draft7 => false end) a v
+  else if str_eqb k k_exclusiveMinimum then match d with Draft4 => true | Draft7 => low_ok true a v end
+  else if str_eqb k k_exclusiveMaximum then match d with Draft4 => true | Draft7 => high_ok true a v end
+  else true.
+Definition guard_is_valid (d : draft) (schema : jdict) (v : json) : bool :=
+  forallb (fun kv => guard_keyword d schema (fst kv) (snd kv) v) schema.
+(* filter_values for a body / path / header / cookie value: kept = emitted as negative data *)
+Definition guard_keeps (d : draft) (schema : jdict) (v : json) : bool := negb (guard_is_valid d schema v).
+
+(* ---- the reference semantics of the property (DESIGN section 1: Draft 4 for OpenAPI 2.0 / 3.0), written as the
+        specification reads, by looking keywords up: exclusiveMinimum true turns minimum into a strict bound, an
+        exclusive keyword without its bound says nothing, false is the same as absent ---- *)
+Definition excl_flag (name : str) (schema : jdict) : bool :=
+  match assoc_get name schema with Some (JBool true) => true | _ => false end.
+Definition declared_valid (schema : jdict) (v : json) : bool :=
+  match assoc_get k_type schema with Some a => type_arg_ok a v | None => true end
+  && match assoc_get k_minimum schema with Some a => low_ok (excl_flag k_exclusiveMinimum schema) a v | None => true end
+  && match assoc_get k_maximum schema with Some a => high_ok (excl_flag k_exclusiveMaximum schema) a v | None => true end.
+
+(* region: the numeric fragment with boolean exclusives - keys unique (a Python dict), type, integer bounds,
+   boolean exclusive flags, annotations; where the model claims to be python-jsonschema *)
+Definition k_description : str := [100; 101; 115; 99; 114; 105; 112; 116; 105; 111; 110].
+Definition k_title : str := [116; 105; 116; 108; 101].
+Definition num_entry (kv : str * json) : bool :=
+  let k := fst kv in
+  if str_eqb k k_type then true
+  else if str_eqb k k_minimum || str_eqb k k_maximum then match snd kv with JInt _ => true | _ => false end
+  else if str_eqb k k_exclusiveMinimum || str_eqb k k_exclusiveMaximum then match snd kv with JBool _ => true | _ => false end
+  else str_eqb k k_description || str_eqb k k_title.
+Definition num_fragment (schema : jdict) : bool := forallb num_entry schema && unique_strs (map fst schema).
+
+(* ---- a parameter location: the object schema parameters_to_json_schema builds (properties, required,
+        additionalProperties false), validated property by property with a given validity of the members ---- *)
+Definition location_is_valid (vf : jdict -> json -> bool) (props : list (str * jdict)) (req : list str) (q : jq) : bool :=
+  forallb (fun kv => match assoc_get (fst kv) props with Some s => vf s (snd kv) | None => false end) q
+  && forallb (fun n => assoc_mem n q) req.
+Definition location_guard_keeps (d : draft) (props : list (str * jdict)) (req : list str) (q : jq) : bool :=
+  negb (location_is_valid (guard_is_valid d) props req q).
